@@ -49,7 +49,7 @@ def build_probes(case):
         else:
             tpl = [i % nt for i in range(nt + 1)]
         q.update(n_spikes=nt + 1, templates=tpl, times=[3 * i + k for i in range(nt + 1)],
-                 amp_base=1.0 + 16 * k, fill=k)
+                 amp_base=1.0 + q.pop('amp_step', 16) * k, fill=k)    # amplitudes identify spikes
         probes.append(q)
     return probes
 
@@ -217,6 +217,14 @@ def explore(ctx):
                                     for j, w in enumerate(widths)],
                           'fill': ctx.seed})
     ctx.run_cases(run_case, cases, chunk=1, sweep='wide-probes')
+    # probes with several hundred templates (more than fit in one 8-bit id / one write batch)
+    cases = []
+    for counts in ([300, 2], [2, 300, 3], [257, 256, 2]):
+        cases.append({'tuple': [{'n_channels': 3, 'n_templates': n, 'channel_map': 'identity',
+                                 'geometry': 'grid', 'ind_dtype': 'int32', 'amp_step': 1000}
+                                for n in counts],
+                      'fill': ctx.seed})
+    ctx.run_cases(run_case, cases, chunk=1, sweep='many-templates')
     ctx.bounds = {'family': FAMILY, 'k_max': K}
     ctx.rule = ('state = one tuple of generated probe directories; transition = Merger.merge() on '
                 'them, every output array compared block by block with the inputs (channel blocks and '
